@@ -235,6 +235,14 @@ def function(ip: Interp, fn: PyConst, args, kwargs, n):
             nparams = len(c.sig) - 1
             return ip.call_contract(c, None, [f, *rest[:nparams]], {}, n)
         return ip.call(f, rest, kwargs, n)
+    if name == 'top_only':
+        new, old = args
+        a = ip.seq_from_end(new, 1)
+        b = ip.seq_from_end(old, 1)
+        if a is not None and b is not None:
+            return a[0] == b[0]
+        return z3.And(z3.Length(new) == z3.Length(old),
+                      z3.Extract(new, 0, z3.Length(new) - 1) == z3.Extract(old, 0, z3.Length(old) - 1))
     if name == 'exc_inside':
         (e,) = args
         v = e.info.get('inside')
